@@ -3,7 +3,8 @@ C17 — identifiers.  Executable model of
 
 * `src/id_policy.py`: `SimpleIDDistributor`, `ExcludingIdDistributor` (forbidden numbers parsed from the
   reference ids with the code's exact `startswith` / `split` / slice / `int` steps), `FeatureIdStorage`
-  (`__init__` loading the reference `exon_id`s, `get_id`);
+  (`__init__` loading the reference `exon_id`s – of the records of ALL feature types into `used_ids`, of the
+  `exon` records into `id_dict` (`initRecords`; `initOrig` = the code before that repair) –, `get_id`);
 * the id formatting of novel transcripts and genes in `src/graph_based_model_construction.py`
   (`construct_fl_isoforms`, `generate_monoexon_from_clustered`) as a function of the numbers drawn from the
   per-chromosome distributor; the heuristics only choose the *event sequence* (`IdEvent`).
@@ -218,6 +219,44 @@ def FeatureIdStorage.init (dist : IdDistributor) (genedb : Option (List RefFeatu
   match genedb with
   | none => ⟨dist, [], []⟩
   | some feats => if chr.isEmpty then ⟨dist, [], []⟩ else feats.foldl (FeatureIdStorage.load chr) ⟨dist, [], []⟩
+
+/-! #### the reference as the repaired `__init__` reads it: records of every type
+
+`genedb.region(seqid=chr_id, start=1)` yields the records of ALL feature types of the chromosome.  GENCODE and every
+`extended_annotation.gtf` written by IsoQuant carry `exon_id` on CDS / start_codon / stop_codon / UTR lines too.
+Every value is entered into `used_ids`; `id_dict` is filled only from records with `f.featuretype == feature`. -/
+
+/-- a reference record: `ofType` = `f.featuretype == feature` (an `exon` record), `feat` = coordinates, strand and
+    the value list of its `exon_id` attribute -/
+structure RefRecord where
+  ofType : Bool
+  feat : RefFeature
+deriving Repr, DecidableEq
+
+def FeatureIdStorage.loadRecord (chr : Str) (st : FeatureIdStorage) (r : RefRecord) : FeatureIdStorage :=
+  match r.feat.idAttr with
+  | none => st
+  | some [] => st                 -- IndexError: pass (raised by the first statement, nothing was added)
+  | some (id :: _) =>
+    if r.ofType then
+      { st with dict := ((chr, r.feat.start, r.feat.stop, r.feat.strand), id) :: st.dict, used := id :: st.used }
+    else { st with used := id :: st.used }
+
+/-- `FeatureIdStorage(id_distributor, genedb, chr_id, "exon")` of the repaired code over the records of all types.
+    (`FeatureIdStorage.init` above is the special case of a reference whose records are all of the requested
+    type: `initRecords_of_features` in Lemmas/Ids.lean.) -/
+def FeatureIdStorage.initRecords (dist : IdDistributor) (genedb : Option (List RefRecord)) (chr : Str) :
+    FeatureIdStorage :=
+  match genedb with
+  | none => ⟨dist, [], []⟩
+  | some recs =>
+    if chr.isEmpty then ⟨dist, [], []⟩ else recs.foldl (FeatureIdStorage.loadRecord chr) ⟨dist, [], []⟩
+
+/-- the code before the repair: `genedb.region(seqid=chr_id, start=1, featuretype=feature)` – records of other types
+    are never seen, their `exon_id` values are missing from `used_ids` (regression variant) -/
+def FeatureIdStorage.initOrig (dist : IdDistributor) (genedb : Option (List RefRecord)) (chr : Str) :
+    FeatureIdStorage :=
+  FeatureIdStorage.init dist (genedb.map (fun recs => (recs.filter (·.ofType)).map (·.feat))) chr
 
 /-- the loop of `get_id` that draws numbers until `chr.N` is not a reference id (fuel; exhaustion is
     shown impossible) -/
